@@ -262,6 +262,12 @@ def _run(case, cfg, w):
                     pk.data[:1] == ['q'] and pk.id is not None:
                 p = getattr(pe, 'label', None)
                 tag = pk.data[1]
+                if tag not in cb_issued:
+                    # (the emit whose publish was made to fail: a follower
+                    # of the sid on the issuing host may still be served
+                    # locally when a membership change is in flight; nobody
+                    # answers it)
+                    continue
                 lst = outstanding.setdefault(p, [])
                 if not any(t == tag for _, _, t in lst):
                     lst.append((pk.nsp, pk.id, tag))
